@@ -338,6 +338,8 @@ pub fn c13() -> Outcome {
         f_of(F::Quadratic(quad(&[(3, 3, 1.0)], Some(lin(&[], -3.0))))),
         f_of(F::Linear(lin(&[(1, 1.5), (2, -0.5)], -2.5))),
         f_of(F::Linear(lin(&[(1, 1.0), (3, 1.0)], -2.0))),                    // integer coefficients: range [-4, 3], the slack range is exactly 4
+        f_of(F::Linear(lin(&[(1, 1.0), (2, 1.0), (3, 1.0)], -10.0))),         // always holds, range [-12, -4]: far below every limit tried
+        f_of(F::Linear(lin(&[(1, 1.0)], -3.0))),                              // always holds with equality at the corner (max f = 0)
     ];
     let unit_linear = |f: &Function| match f.function.as_ref() { Some(F::Linear(l)) => l.constant.fract() == 0.0 && l.terms.iter().all(|t| t.coefficient.fract() == 0.0), _ => false };
     let mk = |f: &Function| {
@@ -361,6 +363,8 @@ pub fn c13() -> Outcome {
             Err(e) => {
                 if i != before { fail!(n, d, "the rejected conversion modified the instance ({e})"); }
                 if lo <= 0.0 && which == 1 { fail!(n, d, "add_integer_slack_to_inequality rejected a satisfiable inequality {f:?}: {e}"); }
+                // interval analysis is exact for these forms: f <= 0 on the whole box means "always satisfied" - moved to the removed constraints, never rejected for its slack range
+                if which == 0 && unit_linear(f) && hi <= 0.0 { fail!(n, d, "convert_inequality_to_equality_with_integer_slack rejected {f:?} (limit {limit}) although the inequality holds on the whole box (max f = {hi}): it must be moved to the removed constraints unchanged: {e}"); }
                 if lo <= 0.0 && which == 0 && limit == 1000 { fail!(n, d, "convert_inequality_to_equality_with_integer_slack rejected {f:?} with a generous limit: {e}"); }
                 // integer coefficients, every variable once: the content factor is 1 and interval analysis is exact, so the slack range is -min f; it is rejected only ABOVE the limit
                 if which == 0 && unit_linear(f) && lo <= 0.0 && hi > 0.0 && -lo <= limit as f64 { fail!(n, d, "convert_inequality_to_equality_with_integer_slack rejected {f:?} although its slack range {} is within the caller's limit {limit}: {e}", -lo); }
@@ -580,6 +584,33 @@ pub fn c16() -> Outcome {
             }
         }
     }
+    // the same for quadratic and polynomial functions, and for every pair of denominators up to 60 that share a factor or not
+    {
+        let gcd = |mut a: i64, mut b: i64| { while b != 0 { let t = a % b; a = b; b = t; } a.abs() };
+        let mut fs2: Vec<(Function, Vec<(i64, i64)>)> = vec![
+            (f_of(F::Quadratic(quad(&[(1, 2, 0.25), (2, 2, 1.0 / 6.0)], Some(lin(&[(1, 1.5)], 0.0))))), vec![(1, 4), (1, 6), (3, 2)]),
+            (f_of(F::Quadratic(quad(&[(1, 1, 2.0 / 3.0)], None))), vec![(2, 3)]),
+            (f_of(F::Polynomial(poly(&[(&[1, 2, 3], 2.0 / 3.0), (&[1], 5.0 / 7.0), (&[], 1.0)]))), vec![(2, 3), (5, 7), (1, 1)]),
+            (f_of(F::Polynomial(poly(&[(&[1, 1, 2, 2], 3.0 / 8.0), (&[3, 3], -5.0 / 12.0)]))), vec![(3, 8), (-5, 12)]),
+        ];
+        for (q1, q2) in [(59i64, 60i64), (49, 56), (60, 45), (32, 48), (7, 11), (60, 60), (53, 59), (27, 36), (1, 60), (25, 40)] {
+            fs2.push((f_of(F::Linear(lin(&[(1, 1.0 / q1 as f64), (2, 7.0 / q2 as f64)], 0.0))), vec![(1, q1), (7, q2)]));
+        }
+        for (k, (f, cs)) in fs2.iter().enumerate() {
+            n += 1; d.insert((5500 + k, 0));
+            // minimal multiplier of p1/q1, p2/q2, ... (lowest terms): lcm(q) / gcd(p)
+            let red: Vec<(i64, i64)> = cs.iter().map(|(p, q)| { let g = gcd(*p, *q); (p / g, q / g) }).collect();
+            let l = red.iter().fold(1i64, |a, (_, q)| a / gcd(a, *q) * q); let g = red.iter().fold(0i64, |a, (p, _)| gcd(a, *p));
+            let want = l as f64 / g as f64;
+            match f.content_factor() {
+                Err(e) => fail!(n, d, "content_factor failed on {f:?} (coefficients {cs:?}): {e}"),
+                Ok(a) => {
+                    for (p, q) in cs { let v = a * (*p as f64 / *q as f64); if (v - v.round()).abs() > 1e-6 { fail!(n, d, "content_factor({f:?}) = {a}: {a} * {p}/{q} = {v} is not an integer"); } }
+                    if !close(a.abs(), want) { fail!(n, d, "content_factor({f:?}) = {a}, the minimal multiplier for the coefficients {cs:?} is {want}"); }
+                }
+            }
+        }
+    }
     Outcome { cases: n, distinct: d.len(), fail: None }
 }
 
@@ -743,6 +774,25 @@ pub fn c02() -> Outcome {
         if let Err(e) = check("Quadratic::from(parameter)", &Function::from(v1::Quadratic::from(&p)), &fp, None, &|a, _| a) { fail!(n, d, "{e}"); }
         if let Err(e) = check("Polynomial::from(parameter)", &Function::from(v1::Polynomial::from(&p)), &fp, None, &|a, _| a) { fail!(n, d, "{e}"); }
         if let Err(e) = check("Function::from(parameter)", &Function::from(&p), &fp, None, &|a, _| a) { fail!(n, d, "{e}"); }
+    }
+    // n-ary sums and products through the Sum / Product impls (Linear, Function): the polynomial sum / product of the items, nothing else (D15: Sum for Linear started from the variable x0)
+    {
+        let ls = [lin(&[(1, 2.0), (2, -1.0)], 3.0), lin(&[(3, 0.5)], -1.0), lin(&[(1, -2.0)], 0.25)];
+        for k in 0..=3usize {
+            n += 1; d.insert((2500, k));
+            let got = Function::from(ls[..k].iter().cloned().sum::<v1::Linear>());
+            let gf: Function = ls[..k].iter().cloned().map(|l| f_of(F::Linear(l))).sum();
+            let gp: Function = ls[..k].iter().cloned().map(|l| f_of(F::Linear(l))).product();
+            for s in states5() {
+                let vals: Vec<f64> = ls[..k].iter().map(|l| ref_val(&f_of(F::Linear(l.clone())), &s).unwrap()).collect();
+                let (ws, wp): (f64, f64) = (vals.iter().sum(), vals.iter().product());
+                for (what, g, w) in [("Iterator::sum::<Linear>", &got, ws), ("Iterator::sum::<Function>", &gf, ws), ("Iterator::product::<Function>", &gp, wp)] {
+                    if !ref_ids(g).is_subset(&[1u64, 2, 3].into_iter().collect()) { fail!(n, d, "{what} over the {k} items {:?} mentions ids outside the items: {g:?}", &ls[..k]); }
+                    let v = ref_val(g, &s).unwrap();
+                    if !close(v, w) { fail!(n, d, "{what} over the {k} items {:?} gives {g:?}, which evaluates to {v} at {s:?}; the polynomial result is {w}", &ls[..k]); }
+                }
+            }
+        }
     }
     // coefficients between machine epsilon and 1e-8 are coefficients ("the documented dropping of coefficients below machine epsilon" is the only dropping):
     // compared coefficient by coefficient against an independent expansion of the operands' term lists
